@@ -35,6 +35,31 @@ theorem prim_spec_rt (env : Env) (ht : env.time = TimeCfg.repaired)
   exact prim_roundtrip' env ht floatExact_holds k flex nW nR hopt w r hw hr v hv p
     (toOption_eq_some.1 h1) rest
 
+/-- with the repaired reader, a primitive field is read either with its own nullability flag, or
+    (nullable, tagged, a Kafka type without nullable reader) with the plain reader -/
+theorem readerOptional_cases (env : Env) (hnull : env.nullableTaggedReader = true)
+    (k : KType) (flex o tagged : Bool) :
+    readerOptional env k flex o tagged = o ∨
+      (o = true ∧ readerOptional env k flex o tagged = false ∧
+        ∃ e, getReader k flex true = .error e) := by
+  unfold readerOptional
+  rw [hnull]
+  cases hg : getReader k flex true with
+  | ok r => left; cases o <;> cases tagged <;> simp [Except.toOption]
+  | error e =>
+    cases o
+    · left; simp
+    · cases tagged
+      · left; simp
+      · right; exact ⟨rfl, by simp [Except.toOption], e, rfl⟩
+
+/-- a Kafka type without nullable reader has no null form: the specification bytes do not depend
+    on the nullability flag -/
+theorem spec_prim_flag_irrel (k : KType) (flex : Bool) (e : Err)
+    (h : getReader k flex true = .error e) (v : Value) :
+    Spec.prim k flex true v = Spec.prim k flex false v := by
+  cases k <;> cases flex <;> first | (simp [getReader] at h; done) | (cases v <;> rfl)
+
 /-! ### arrays -/
 
 /-- a writer made of a specification function (to reuse the writer-side lemmas) -/
@@ -125,14 +150,22 @@ theorem shape_prim_F (env : Env) (ht : env.time = TimeCfg.repaired)
     rw [hk] at hvo
     simp only at hvo
     simp only [Bool.and_eq_true] at hwf
-    obtain ⟨⟨⟨⟨hl, _⟩, _⟩, hr⟩, _⟩ := hwf
+    obtain ⟨⟨⟨⟨hl, _⟩, _⟩, hr0⟩, _⟩ := hwf
     have hsft := schemaFieldType_ok m k l hk hl
-    obtain ⟨r, hr⟩ := ok_of_isSome hr
-    rw [hnull, Bool.true_or, Bool.and_true] at hr
+    obtain ⟨r, hr⟩ := ok_of_isSome hr0
+    clear hr0
+    rw [← htag] at hr
     simp only [Spec.fieldBytesF, hk] at he
-    simp only [Shape.read, primFieldReader, hsft, hnull, Bool.true_or, Bool.and_true, hr]
-    exact prim_spec_rt env ht k flex o o (Or.inl id) r hr (getWriter_of_getReader k flex o r hr) v
-      (primValueOk_mono env k o v hvo) bs he rest
+    simp only [Shape.read, primFieldReaderT, hsft, hr]
+    rcases readerOptional_cases env hnull k flex o tagged with h | ⟨ho, hf, e, hge⟩
+    · rw [h] at hr
+      exact prim_spec_rt env ht k flex o o (Or.inl id) r hr (getWriter_of_getReader k flex o r hr) v
+        (primValueOk_mono env k o v hvo) bs he rest
+    · rw [hf] at hr
+      subst ho
+      rw [spec_prim_flag_irrel k flex e hge v] at he
+      exact prim_spec_rt env ht k flex false false (Or.inl id) r hr
+        (getWriter_of_getReader k flex false r hr) v (primValueOk_mono env k true v hvo) bs he rest
   · cases hwf
 
 theorem shape_primArr_F (env : Env) (ht : env.time = TimeCfg.repaired) (pat : Spec.ForeignPat)
